@@ -165,7 +165,15 @@ def run(chk):
                         for n in walk(g["body"]):
                             if n.get("k") == "call" and callee(n).get("name") == "row" and is_this_mem(n.get("obj"), M.m_coeffs):
                                 used.add(pp(n["args"][0]))
-                        zero_rows = [u for u in used if row_offset(u, K) == 0]
+                        # residue of every row index modulo K, with locals read through (k * K + 3, left_row + K, ...)
+                        zero_rows = []
+                        for n in walk(g["body"]):
+                            if n.get("k") == "call" and callee(n).get("name") == "row" and is_this_mem(n.get("obj"), M.m_coeffs):
+                                r_ = row_residue(n["args"][0], g, K)
+                                if r_ is None:
+                                    raise Broken("%s::%s: coefficient row index %s is not of the form K * (integer expression) + constant" % (cls, gname, pp(n["args"][0])))
+                                if r_ == 0:
+                                    zero_rows.append(pp(n["args"][0]))
                         chk.ob("C14-R2", "%s::%s never reads a c_0 row" % (cls, gname), not zero_rows, loc(g), "rows %s" % sorted(used), construct="%s/translation/%s" % (cls, gname))
                 # system rows
                 if short == "CubicSplineND":
@@ -280,6 +288,53 @@ def is_lhs(f, node):
         if n.get("k") == "call" and callee(n).get("op") == "=" and n.get("obj") is node:
             return True
     return False
+
+
+def row_residue(node, f, K):
+    """(row index) mod K for an index built from literals, + - *, the function's integer locals (read through their single
+    initialiser) and loop variables (free integers); None when the index is not K * (integer expression) + constant."""
+    decls = {n["id"]: n for n in walk(f["body"]) if n.get("k") == "decl"}
+    assigned = {strip_var(n.get("l")) for n in walk(f["body"]) if n.get("k") == "assign"} | {strip_var(n.get("e")) for n in walk(f["body"]) if n.get("k") == "un" and n.get("op") in ("++", "--")}
+
+    def ev(n, depth=0):
+        while isinstance(n, dict) and n.get("k") in ("cast", "paren", "conv", "copy") and n.get("e") is not None:
+            n = n["e"]
+        if not isinstance(n, dict) or depth > 30:
+            return None
+        k = n.get("k")
+        if k == "lit":
+            try:
+                return Integer(int(str(n.get("v"))))
+            except ValueError:
+                return None
+        if k == "bin" and n.get("op") in ("+", "-", "*"):
+            a, b = ev(n["l"], depth + 1), ev(n["r"], depth + 1)
+            if a is None or b is None:
+                return None
+            return {"+": a + b, "-": a - b, "*": a * b}[n["op"]]
+        if k == "var":
+            d = decls.get(n.get("id"))
+            if d is not None and d.get("init") is not None and n.get("id") not in assigned and (d.get("ty") or {}).get("c") == "int" and (d.get("ty") or {}).get("const"):
+                return ev(d["init"], depth + 1)
+            return sp.Symbol("v%s_%s" % (n.get("id"), n.get("name")), integer=True)
+        if k == "mem":
+            return sp.Symbol("m_" + str(n.get("field")), integer=True)
+        return None
+    e = ev(node)
+    if e is None:
+        return None
+    e = sp.expand(e)
+    const = e.as_coeff_Add()[0]
+    rest = sp.expand(e - const)
+    if rest != 0 and not all(sp.sympify(c_).is_Integer and c_ % K == 0 for c_ in sp.Poly(rest, *sorted(rest.free_symbols, key=str)).coeffs()):
+        return None
+    return int(const) % K
+
+
+def strip_var(n):
+    while isinstance(n, dict) and n.get("k") in ("cast", "paren", "conv", "copy") and n.get("e") is not None:
+        n = n["e"]
+    return n.get("id") if isinstance(n, dict) and n.get("k") == "var" else None
 
 
 def row_offset(txt, K):
